@@ -34,7 +34,7 @@ RULE = ("static: one regenerated obligation per public entry point of the curren
         "single-precision differences round, as float64 / float32 / Fortran-ordered float64 array / nested list; "
         "narrow_int: integers 0..12 as float64 / int64 / uint8 / int16 / float32 / float16 / Fortran-ordered array / "
         "list; the narrow floating-point forms are compared with the float64 form at the normal tolerance for the entry "
-        "points that work in float64 whatever they are given (NARROW_TIGHT: bottleneck, wasserstein, imager fit, plots; "
+        "points that work in float64 whatever they are given (NARROW_TIGHT: bottleneck, wasserstein, exact landscapes, imager fit, plots; "
         "histories made of them), at 2e-5 (float32) / 5e-2 (float16) where the pinned code computes in the element "
         "type of the diagram, and not at all where bars are snapped to grid nodes; narrow integer forms always at the "
         "normal tolerance, sliced_wasserstein 2e-5) + class containers for gromov_hausdorff (adjacency matrices built "
@@ -93,16 +93,16 @@ ASSUMPTIONS = [
     "'integer arrays' of the property text include int32, int16 and uint8 as well as int64 arrays, 'floating-point "
     "arrays' include non-contiguous and Fortran-ordered float64 arrays and float32 / float16 arrays whose values are "
     "exactly representable in them",
-    "narrow floating-point diagrams: on the pinned tree only bottleneck, wasserstein, PersistenceImager.fit and the "
-    "plots work in float64 whatever they are given (NARROW_TIGHT) and are held to the normal tolerance; heat, "
-    "sliced_wasserstein, persistent_entropy, the imagers and the landscapes compute in the element type of a float32 "
+    "narrow floating-point diagrams: on the pinned tree only bottleneck, wasserstein, the exact landscapes (since "
+    "/repo 3827d1a), PersistenceImager.fit and the plots work in float64 whatever they are given (NARROW_TIGHT) and "
+    "are held to the normal tolerance; heat, sliced_wasserstein, persistent_entropy, the imagers and the grid "
+    "landscapes compute in the element type of a float32 "
     "/ float16 diagram (results deviate by ~1e-7 relative for float32; grid landscapes can move a bar to the "
     "neighbouring node) - a representation dependence under the strict reading of the property, REPORTED and not "
     "suppressed by a looser predicate elsewhere: these entry points are compared at the resolution of the narrow "
     "type only (NARROW_TOL / NARROW_GRID), so a change that makes one of THEM compute in single precision is not seen",
-    "heat on uint8 diagrams returns NaN on the pinned tree ((p - q) ** 2 wraps around in uint8): genuine defect, "
-    "proposed patch fixes/C19_heat_unsigned_input.patch; until it is applied the uint8 form is not generated for heat "
-    "(NARROW_OPEN)",
+    "heat on uint8 diagrams returned NaN ((p - q) ** 2 wrapped around in uint8): genuine defect found by this check, "
+    "repaired by /repo bc9cf64 (fixes/C19_heat_unsigned_input.patch); the uint8 form is generated for heat",
     "graph containers are checked for purity and repeatability only; that a sparse and the equal-valued dense "
     "adjacency matrix give the same bounds is not part of this property (C17)",
     "returning an argument object itself (or a view of it) is allowed; such results are not overwritten",
@@ -203,8 +203,9 @@ SIBLINGS = (("float", "fview"), ("int", "int32"), ("float", "forder"), ("float",
 # entry points of the pinned tree compute in the element type of a float32 / float16 diagram (and sliced_wasserstein
 # projects integer diagrams onto float32 directions): for them a narrow form is compared at the resolution of the
 # narrow type (NARROW_TOL), which still catches wrap-around, NaN, a rejected form or a wrong formula.
-NARROW_TIGHT = {"bottleneck", "wasserstein", "PersistenceImager.fit", "matching_plots", "plot_diagrams", "PersistenceImager.plot_diagram"}
-NARROW_TIGHT_OPS = {"bottleneck", "wasserstein", "plot"}             # ops of a "history" case
+NARROW_TIGHT = {"bottleneck", "wasserstein", "PersistenceImager.fit", "matching_plots", "plot_diagrams", "PersistenceImager.plot_diagram",
+                "PersLandscapeExact", "PersLandscapeExact.arith"}    # exact landscapes: binary64 since /repo 3827d1a
+NARROW_TIGHT_OPS = {"bottleneck", "wasserstein", "plot", "exact", "exact_add"}             # ops of a "history" case
 NARROW_TOL = {"f32": 2e-5, "f16": 5e-2}
 # ... except where a result is a DISCONTINUOUS function of the input (bars snapped to grid nodes by floor / ceil): a
 # 1e-7 relative deviation of an intermediate quotient moves a bar to the neighbouring node, so the values of the
@@ -213,7 +214,7 @@ NARROW_GRID = {"PersLandscapeApprox", "PersLandscapeApprox.arith", "PersistenceL
 NARROW_GRID_OPS = {"approx", "landscaper", "persimage"}
 # unsigned diagrams on which the pinned tree is known to fail (reported, fixes/C19_narrow_input_dtypes.patch): heat
 # computes (p - q) ** 2 in uint8, wraps around and returns NaN.  Remove the entry once the fix is in /repo.
-NARROW_OPEN = {"heat": ("uint8",)}
+NARROW_OPEN = {}      # heat on uint8 diagrams: repaired by /repo bc9cf64, generated again
 
 
 def _form_tol(c, rep):
